@@ -27,6 +27,14 @@ func (l *LQueue[T]) Enqueue(item T) {
 	l.mu.Lock()
 	defer l.mu.Unlock()
 
+	if l.n == 0 {
+		// The queue has been drained or cleared: start a fresh list
+		// instead of appending after the leftover head node.
+		l.list = list.InitDList(item)
+		l.n = 1
+		return
+	}
+
 	l.n++
 	l.list.Append(item)
 }
@@ -36,6 +44,10 @@ func (l *LQueue[T]) Enqueue(item T) {
 func (l *LQueue[T]) Dequeue() (item T) {
 	l.mu.Lock()
 	defer l.mu.Unlock()
+
+	if l.n == 0 {
+		return item
+	}
 
 	node := l.list.Shift()
 	l.n--
@@ -47,6 +59,11 @@ func (l *LQueue[T]) Peek() T {
 	l.mu.RLock()
 	defer l.mu.RUnlock()
 
+	if l.n == 0 {
+		var item T
+		return item
+	}
+
 	return l.list.First()
 }
 
@@ -54,6 +71,10 @@ func (l *LQueue[T]) Peek() T {
 func (l *LQueue[T]) Search(item T) bool {
 	l.mu.Lock()
 	defer l.mu.Unlock()
+
+	if l.n == 0 {
+		return false
+	}
 
 	if _, ok := l.list.Find(item); ok {
 		return true
